@@ -184,6 +184,66 @@ def whole_value_type(fb, ty, depth=0):
     return False, "comparison on %s is not a recognised whole-value equality" % ty.s
 
 
+_hetero_cache = {}
+
+
+def hetero_eq(ctx, self_ty, rhs_ty):
+    """`impl PartialEq<Rhs> for X` written by hand in the crate, X a one-field crate type:
+    (True, why) when its `eq` is nothing but the whole-value `==` of that one field and the
+    whole right-hand side, both of one type (and the impl keeps the default `ne`)"""
+    key = (id(ctx), self_ty.s, rhs_ty.s)
+    if key in _hetero_cache:
+        return _hetero_cache[key]
+    res = (False, "no hand-written PartialEq<%s> for %s that is one whole-value equality" % (rhs_ty.s, self_ty.s))
+    _hetero_cache[key] = res
+    fb = ctx.fb
+    if self_ty.k != "adt" or not self_ty.d.get("local") or len(fb.adt_fields(self_ty.path) or []) != 1 or len(fb.adts[self_ty.path]["variants"]) != 1:
+        return res
+    cands = []
+    for path, b in fb.bodies.items():
+        if b.d.get("impl_trait") not in ("std::cmp::PartialEq", "core::cmp::PartialEq") or b.derived() or not path.startswith("<%s as " % self_ty.path):
+            continue
+        t1, t2 = b.local_ty(1), b.local_ty(2)
+        if t1 is None or t2 is None or t1.peel_refs().s != self_ty.s or t2.peel_refs().s != rhs_ty.s:
+            continue
+        cands.append(path)
+    if len(cands) != 1 or not cands[0].endswith("::eq"):
+        return res      # none, or the impl also writes its own `ne`
+    se = ctx.wrap.run(cands[0])
+    if se is None or cfg.back_edges(se.body):
+        return res
+    cmps = compare_sites(ctx, se)
+    if len(cmps) != 1 or cmps[0]["op"] != "eq" or strip(se.ret) != strip(cmps[0]["term"]):
+        return res
+    c = cmps[0]
+    ops = [canon(ctx, se, a) for a in c["args"]]
+    selfs = (("param", 1), ("field", ("param", 1), 0))
+    if not ((ops[0] in selfs and ops[1] == ("param", 2)) or (ops[1] in selfs and ops[0] == ("param", 2))):
+        return res
+    ok, why = whole_value_type(fb, c["self_ty"])
+    if not ok or c["rhs_ty"] is None or c["rhs_ty"].peel_refs().s != c["self_ty"].peel_refs().s or c["self_ty"].peel_refs().s != rhs_ty.s:
+        return res
+    res = (True, "%s: its one field == the whole right-hand side, %s" % (cands[0], why))
+    _hetero_cache[key] = res
+    return res
+
+
+def whole_compare(ctx, c):
+    """(ok, why): is the comparison site c (of compare_sites) an equality of every byte of both
+    operands - one type on both sides whose `==` is whole, or a crate type against the type of
+    its only field through a hand-written impl that is that field's whole `==`"""
+    ok, why = whole_value_type(ctx.fb, c["self_ty"])
+    if c["rhs_ty"] is None or c["rhs_ty"].s == c["self_ty"].s:
+        return ok, why
+    for a, b in ((c["self_ty"], c["rhs_ty"]), (c["rhs_ty"], c["self_ty"])):
+        a, b = a.peel_refs(), b.peel_refs()
+        if a.k == "adt":
+            h = hetero_eq(ctx, a, b)
+            if h[0]:
+                return h
+    return False, "operands of different types (%s, %s)" % (c["self_ty"].s, c["rhs_ty"].s)
+
+
 def compare_sites(ctx, se):
     """all `==` / `!=` calls of a body: dict(bb, op, self_ty, args (terms), term)"""
     out = []
@@ -1469,8 +1529,8 @@ def proof_decisions(ctx, se):
     out = []
     body = se.body
     for c in compare_sites(ctx, se):
-        ok, why = whole_value_type(ctx.fb, c["self_ty"])
-        same = c["rhs_ty"] is None or c["rhs_ty"].s == c["self_ty"].s
+        ok, why = whole_compare(ctx, c)
+        same = True
         g = compare_gate(ctx, se, c)
         out.append({"ops": [canon(ctx, se, resolve_locals(se, c["bb"], a)) for a in c["args"]], "whole": (ok and same, why), "bb": c["bb"], "eq_edge": g[1] if g else None, "ne_edge": g[2] if g else None, "err_fields": None, "via": "inline", "term": c["term"], "op": c["op"]})
     inline_bbs = {d["bb"] for d in out}
